@@ -20,11 +20,18 @@ from harness.common import InfraError, Names, Toks, toks
 # ------------------------------------------------------------------ wire format
 def nat_of(name: Any) -> Optional[int]:
     """The natural number a Python state name is equal to (`1 == True == 1.0`), if any."""
-    if isinstance(name, (int, float)) and not isinstance(name, complex):
+    import numbers
+    if isinstance(name, numbers.Number):      # int, bool, float, Fraction, Decimal, complex: equal numbers are ONE key
         try:
-            if name == int(name) and name >= 0:
-                return int(name)
-        except (OverflowError, ValueError):
+            x = name
+            if isinstance(x, complex):
+                if x.imag != 0:
+                    return None
+                x = x.real
+            k = int(x)
+            if x == k and k >= 0:
+                return k
+        except (OverflowError, ValueError, TypeError, ArithmeticError):
             return None
     return None
 
